@@ -1966,6 +1966,24 @@ def mem_take(m, a, ci):
         dflt = Str(())
     elif isinstance(old, Vec):
         dflt = Vec((), old.kind)
+    elif isinstance(old, Agg) and getattr(old, 'ty', None) and old.variant is None:
+        # a struct of the crate: its (derived or written) Default impl from the MIR; a derived one is rebuilt field by field when it is not in the dump
+        try:
+            dflt = crate_default(m, old.ty)
+        except EncoderGap:
+            fields = []
+            for f_ in old.fields:
+                if isinstance(f_, bool) or z3.is_bool(f_):
+                    fields.append(False)
+                elif isinstance(f_, int) or z3.is_bv(f_):
+                    fields.append(0)
+                elif isinstance(f_, Str):
+                    fields.append(Str(()))
+                elif isinstance(f_, Vec):
+                    fields.append(Vec((), f_.kind))
+                else:
+                    raise EncoderGap('mem::take of %r' % (old,))
+            dflt = Agg(old.ty, None, tuple(fields), old.names)
     else:
         raise EncoderGap('mem::take of %r' % (old,))
     m.store(a[0], dflt)
